@@ -244,6 +244,7 @@ func checkC04(r *core.Run) {
 	c04Backoff(r)
 	r.Floor("C04.decision", 3)
 	r.Floor("C04.surface", 8)
+	c07FreshInit(r, "C04.decision")
 	r.Floor("C04.retry", 3)
 }
 
